@@ -188,7 +188,11 @@ def _name():
 
 
 def expr_strategy(max_leaves: int = 12):
-    atom = st.one_of(_const(), _name(), _name())
+    # indexing around both ends of (possibly empty) sequences and missing keys: cheap to state, rare under the recursive grammar
+    edge_index = st.builds(lambda base, k: f"{base}[{k}]",
+                           st.sampled_from(["lst", "x", "y", "s", "d", "nested['k']", "nested['a']['b']['k']", "[1, 2]", "(1, 2)", "[]", "'ab'", "lst[0]"]),
+                           st.one_of(st.integers(-7, 7).map(repr), st.sampled_from(["'a'", "'zz'", "None", "True", "1.0", "-1.0", "n", "-n", "x"])))
+    atom = st.one_of(_const(), _name(), _name(), edge_index)
 
     def extend(e):
         attr = st.sampled_from(["a", "b", "k", "__class__", "__dict__", "keys", "x", "append"])
